@@ -61,37 +61,64 @@ class JitterModel(object):
     def value(self, i):
         return F.V3[i % 3]
 
+    @staticmethod
+    def segment(hist):
+        """the gaps since the last reset()"""
+        if 'R' in hist:
+            k = len(hist) - 1 - hist[::-1].index('R')
+            return hist[k + 1:]
+        return hist
+
     def apply(self, obj, hist, e):
-        t = float(sum(hist, Fr(0)) + e)
-        out = impl.outcome(impl.dt_update, obj, t, {'x': self.value(len(hist))})
+        if e == 'R':
+            out = impl.outcome(obj.reset)
+            return (out, impl.outcome(lambda: obj.sampling_violation_counter))
+        seg = self.segment(hist)
+        t = float(sum(seg, Fr(0)) + e)
+        out = impl.outcome(impl.dt_update, obj, t, {'x': self.value(len(seg))})
         return (out, impl.outcome(lambda: obj.sampling_violation_counter))
 
     def expected_count(self, hist):
-        return sum(1 for g in hist[1:] if outside(g, self.P, self.tol))
+        seg = self.segment(hist)
+        return sum(1 for g in seg[1:] if outside(g, self.P, self.tol))
 
     def implkey(self, obj):
         return explore.snapshot(obj, ())
 
     def refkey(self, hist):
-        return (self.expected_count(hist), sum(hist, Fr(0)), len(hist) % 3, self.value(len(hist) - 1) if hist else None)
+        seg = self.segment(hist)
+        return (self.expected_count(hist), sum(seg, Fr(0)), len(seg) % 3, self.value(len(seg) - 1) if seg else None, 'R' in hist and not seg)
 
     def check(self, hist, out, obj):
         (kind, val), (ck, cnt) = out
         n = len(hist)
+        seg = self.segment(hist)
+        if hist[-1] == 'R':
+            if kind != 'ok':
+                return 'reset() raised %s' % (val,)
+            if ck != 'ok' or cnt != 0:
+                return 'sampling_violation_counter is %r right after reset()' % (cnt,)
+            return None
         if kind != 'ok':
             return 'update() number %d raised %s' % (n, val)
-        w = {'x': [self.value(i) for i in range(n)]}
-        exp = refsem.ev(self.f, w, n)[-1]
+        w = {'x': [self.value(i) for i in range(len(seg))]}
+        exp = refsem.ev(self.f, w, len(seg))[-1]
         if not refsem.same(val, exp):
             return 'update() number %d returned %r, rho is %r (robustness must not depend on the time-stamps)' % (n, val, exp)
         want = self.expected_count(hist)
         if ck != 'ok' or cnt != want:
-            return ('sampling_violation_counter is %r after time-stamps %r; %d gaps lie outside [P(1-tol), P(1+tol)] with P=%s (default unit), tol=%s'
-                    % (cnt, [float(sum(hist[:i + 1], Fr(0))) for i in range(n)], want, self.P, self.tol))
-        inside = (n - 1) - want
+            return ('sampling_violation_counter is %r after time-stamps %r%s; %d gaps lie outside [P(1-tol), P(1+tol)] with P=%s (default unit), tol=%s'
+                    % (cnt, [float(sum(seg[:i + 1], Fr(0))) for i in range(len(seg))], ' (since the last reset())' if 'R' in hist else '', want, self.P, self.tol))
+        inside = (len(seg) - 1) - want
         if want and inside:
             self.nontrivial += 1
         return None
+
+    def enabled(self, hist):
+        # one reset() per history, not as the first event and not twice in a row
+        if hist and 'R' not in hist:
+            return self.events + ['R']
+        return self.events
 
 
 def shards(tier):
@@ -148,7 +175,7 @@ def run_shard(shard, tier, res):
     depth = 4 if tier == 'quick' else 6
 
     def on_violation(hist, msg):
-        case = {'mode': 'online', 'cfg': list(cfg), 'tol': shard['tol'], 'gaps': [[g.numerator, g.denominator] for g in hist]}
+        case = {'mode': 'online', 'cfg': list(cfg), 'tol': shard['tol'], 'gaps': [('R' if g == 'R' else [g.numerator, g.denominator]) for g in hist]}
         res.violation(mod, case, msg)
         res.outcomes['online: ' + msg.split(' is ')[0][:30]] += 1
     st = explore.bfs(m, depth, 10 ** 7, 'first', on_violation)
@@ -170,7 +197,7 @@ def run_shard(shard, tier, res):
 
 def replay(case):
     m = JitterModel(tuple(case['cfg']), Fr(*case['tol']))
-    hist = tuple(Fr(*g) for g in case['gaps'])
+    hist = tuple(('R' if g == 'R' else Fr(*g)) for g in case['gaps'])
     if case['mode'] == 'online':
         obj = m.fresh()
         msgs = []
